@@ -23,7 +23,12 @@ fn gen_path(rng: &mut Rng) -> Vec<u8> {
 }
 
 fn long_path(rng: &mut Rng) -> Vec<u8> {
-    let len = *rng.pick(&[4093usize, 4094, 4095, 4096, 4097, 4098, 4099, 4100, 4101, 4102, 4103, 4140, 5000]);
+    // rarely: lengths around 2^16 and 2^17, where a 16-bit length computation wraps before it saturates
+    let len = if rng.chance(1, 15) {
+        *rng.pick(&[65535usize, 65536, 65537, 65546, 69630, 69631, 131077])
+    } else {
+        *rng.pick(&[4093usize, 4094, 4095, 4096, 4097, 4098, 4099, 4100, 4101, 4102, 4103, 4140, 5000])
+    };
     let mut p = rng.word(b"ab", 2, 2);
     p.push(b'/');
     while p.len() < len {
@@ -145,8 +150,14 @@ fn gen(rng: &mut Rng, n: usize) -> Vec<Case> {
     let mut out: Vec<Case> = Vec::new();
     // boundary block: every path length around the saturation point and every padding residue,
     // followed by a short entry; with and without extended flags
-    for len in [1usize, 2, 3, 4, 5, 6, 7, 8, 9, 4093, 4094, 4095, 4096, 4097, 4098, 4099, 4100, 4101, 4102, 4103, 4140] {
+    for len in [
+        1usize, 2, 3, 4, 5, 6, 7, 8, 9, 4093, 4094, 4095, 4096, 4097, 4098, 4099, 4100, 4101, 4102, 4103, 4140, 65535, 65536,
+        65537, 65546, 69630, 69631, 131077,
+    ] {
         for ext in [false, true] {
+            if ext && len > 65536 {
+                continue;
+            }
             let mut a = gen_entries(rng, 2, 1);
             a.truncate(1);
             if a.is_empty() {
